@@ -99,3 +99,35 @@ Example fmt_tables_ex : fmt_tables_asis 64 1 KUpperHex (mkflags false true false
 Proof. vm_compute. reflexivity. Qed.
 Example fmt_tables_ex2 : fmt_tables_asis 64 0 (KInRadix 36) (mkflags true false false None None [32]) 35 = Ok [43; 122].
 Proof. vm_compute. reflexivity. Qed.
+
+(* ------------------------------------------------------------------------------------------ *)
+(** * radix.rs digit_from_ascii_byte, evaluated by the translator for all 256 byte values (coq/gen/IoTables3.v
+      gen_digit_table), is the grammar's digit function on EVERY byte 0..255 (finite domain: the argument is a u8) *)
+Definition table_digit (c : Z) : option Z := nth (Z.to_nat c) gen_digit_table None.
+
+Definition opt_eqb (a b : option Z) : bool :=
+  match a, b with Some x, Some y => x =? y | None, None => true | _, _ => false end.
+
+Lemma opt_eqb_eq a b : opt_eqb a b = true -> a = b.
+Proof. destruct a, b; cbn; intros H; try discriminate; [apply Z.eqb_eq in H; subst|]; reflexivity. Qed.
+
+Lemma digit_table_check :
+  length gen_digit_table = 256%nat /\
+  forallb (fun n => opt_eqb (nth n gen_digit_table None) (digit_of_char (Z.of_nat n))) (seq 0 256) = true.
+Proof. split; vm_compute; reflexivity. Qed.
+
+Theorem digit_table_ok c : 0 <= c < 256 -> table_digit c = digit_of_char c.
+Proof.
+  intros Hc. destruct digit_table_check as [_ H]. rewrite forallb_forall in H.
+  specialize (H (Z.to_nat c) ltac:(apply in_seq; lia)). apply opt_eqb_eq in H.
+  rewrite Z2Nat.id in H by lia. exact H.
+Qed.
+
+Corollary digit_from_ascii_table256 r c : 0 <= c < 256 ->
+  digit_from_ascii r c = match table_digit c with Some d => if d <? r then Some d else None | None => None end.
+Proof. intros Hc. unfold digit_from_ascii. rewrite (digit_table_ok c Hc). reflexivity. Qed.
+
+(** in particular no control byte, no neighbour of the ranges and no byte above 127 is a digit *)
+Example digit_table_ex : table_digit 17 = None /\ table_digit 64 = None /\ table_digit 96 = None /\ table_digit 177 = None /\
+  table_digit 65 = Some 10 /\ table_digit 122 = Some 35.
+Proof. repeat split; vm_compute; reflexivity. Qed.
